@@ -168,7 +168,8 @@ CFG = {
     "n": {"quick": 1000, "thorough": 20000},
     "exhaustive": {"quick": False, "thorough": False},
     "shrink": False,
-    "rule": "`zero` family (follow-up to seed C04_11): object number 0 as an ORDINARY in-use object and boundary object numbers, added or redefined in the base or in an update, classic table and cross-reference stream (type 1 and type 2 rows), all 180 combinations; "
+    "rule": "`emp` family (follow-up to seed C04_13): EMPTY SUBSECTIONS (`N 0`) inserted into the classic tables (plain and hybrid) of 2- and 3-revision histories at every position (one leading, two leading, one / two / three in a row after the first subsection, before the last subsection, trailing, everywhere), in the base's table / the newest update's / every revision's, the subsections after them redefining, freeing and adding objects - an empty subsection contributes no entry, oracle `resolve`; all 48 combinations x 3 documents (corpus/C04/empty_subsections.case: hand-built minimal instances); "
+            "`zero` family (follow-up to seed C04_11): object number 0 as an ORDINARY in-use object and boundary object numbers, added or redefined in the base or in an update, classic table and cross-reference stream (type 1 and type 2 rows), all 180 combinations; "
             "corpus (hand-built: redefinition, free with stable generation, added object + moved root, /Prev to itself, /Prev beyond the file, two sections "
             "pointing at each other; smallest generated instances of both known findings) + per seed one history from the spec-side generator: base "
             "revision as in C03 (any layout) followed by 1-3 (thorough: up to 7 for a third of the cases) incremental updates, each with 1-3 edits (redefine "
